@@ -66,7 +66,7 @@ def runContainerOpen (args : List String) : IO String := do
                           let uu := match (do let hd ← readBlock bytes 0 60; PackHeader.decode hd : Outcome PackHeader) with
                             | .ok h => toHex h.uuid
                             | _ => "nouuid"
-                          match ← decodeContentPack bytes s!"{decdir}/{uu}" with
+                          match ← decodeContentPack bytes s!"{decdir}/{uu}-{hex64 (fnv64 bytes)}" with
                           | .ok dp => pure (some dp, "found")
                           | r => pure (none, errStr r)
                         | r => pure (none, errStr r) : IO (Option DecPack × String))
@@ -150,7 +150,7 @@ def containerReadScript (fs : FS) (entry decdir : String) : IO (Outcome String) 
                         -- ContentPack::new only; clusters are opened lazily per content
                         match contentOpen bytes with
                         | .ok _ =>
-                          match ← decodeContentPack bytes s!"{decdir}/{uu}" with
+                          match ← decodeContentPack bytes s!"{decdir}/{uu}-{hex64 (fnv64 bytes)}" with
                           | .ok dp => pure (.ok (some dp), "found")
                           | _ => pure (.ok none, "lazy-cluster-error")
                         | .err k => pure (.err k, "")
